@@ -203,6 +203,8 @@ def run_playback(scr, unit, h, tests):
         if not m:
             continue
         names.append(m.group(1))
+        # the crates are no_std + alloc: name Vec / vec! by path
+        t = t.replace("Vec<Vec<u8>>", "alloc::vec::Vec<alloc::vec::Vec<u8>>").replace("= vec![", "= alloc::vec![").replace(" vec![", " alloc::vec![")
         body += t + "\n"
     open(hfile, "w").write(body)
     try:
